@@ -31,7 +31,10 @@ Step ==
             \A i \in DOMAIN Rec.pools :
                LET p == Rec.pools[i] IN
                /\ Stat("pools")
-               /\ Clause("summation-runs-over-minus-s-to-s",
+               /\ IF p.massless = -1
+                  \* a rotation factor D^j_{m m'}: j is the spin of the state whose projections m, m' belong to
+                  THEN Clause("rotation-carries-the-spin-of-its-state", p.vals = <<p.spin2>>, <<p.index, p.spin2, p.vals>>)
+                  ELSE Clause("summation-runs-over-minus-s-to-s",
                          Complete(Rec.outer) => ToSetOf(p.vals) = SpinRange(p.spin2, p.massless = 1) /\ Len(p.vals) = Cardinality(SpinRange(p.spin2, p.massless = 1)),
                          <<p.index, p.spin2, p.massless, p.vals>>)
        [] Rec.kind = "built" ->
